@@ -104,6 +104,7 @@ def e2e(idx: int, y: int) -> bool:
     pre: LO <= idx < HI and 0 <= y <= YMAX
     post: _
     """
+    xs.path_start()
     idx = xs.pick(idx, LO, HI)
     y = xs.pick(y, 0, YMAX + 1)
     with xs.nt():
@@ -129,6 +130,7 @@ def plumbing(parse_fails: bool, b0: bool, b1: bool, b2: bool, b3: bool, b4: bool
     pre: y0 == FY0 and y1 == FY1
     post: _
     """
+    xs.path_start()
     faults = [b0, b1, b2, b3, b4, b5]
     seen_sets, evaluated, wrong_ctx = [], [], []
     with xs.nt():
@@ -217,6 +219,7 @@ def multi(idx: int, s1: int, s2: int, f: bool, y: int) -> bool:
     pre: M_LO <= idx < M_HI and 0 <= s1 < 3 and 0 <= s2 < 3 and 0 <= y <= 1
     post: _
     """
+    xs.path_start()
     idx, s1, s2, y = xs.pick(idx, M_LO, M_HI), xs.pick(s1, 0, 3), xs.pick(s2, 0, 3), xs.pick(y, 0, 2)
     text, valid = MULTI[idx]
     env.setup(rc={"1": env.STATES[s1], "2": env.STATES[s2]}, fc={"901": f}, hints={"501": "Hinweis 501"}, yc={"1": y})
